@@ -11,7 +11,7 @@ Log == ndJsonDeserialize(IOEnv.TRACE_FILE)
 VARIABLE l
 
 Seq2(s) == [i \in DOMAIN s |-> s[i]]
-ToZ(z) == [cap |-> z.cap, count |-> z.count, tser |-> Seq2(z.tser),
+ToZ(z) == [cap |-> z.cap, count |-> z.count, tcount |-> z.tcount, tser |-> Seq2(z.tser),
            ser |-> [i \in DOMAIN z.ser |-> Seq2(z.ser[i])], last |-> Seq2(z.last), cbs |-> Seq2(z.cbs)]
 ToW(s) == [now |-> s.now, started |-> s.started, X |-> [x |-> s.X.x, lst |-> Seq2(s.X.lst)],
            P |-> [z |-> ToZ(s.P), iv |-> s.P.iv, next |-> s.P.next],
@@ -25,7 +25,7 @@ Same(a, b) == a.count = b.count /\ a.ser = b.ser /\ a.tser = b.tser /\ a.last = 
 PSenseClauses(pre, ev, post, grid) ==
     LET vals == PVals(pre)
         m == Measure(pre.P.z, vals, post.now, TRUE) IN
-    C("C19.PeriodicTime", ev.timeExact /\ (grid => post.now = (pre.P.z.count + 1) * pre.P.iv))
+    C("C19.PeriodicTime", ev.timeExact /\ (grid => post.now = (pre.P.z.tcount + 1) * pre.P.iv))
     \cup C("C19.PeriodicOneMeasurement", post.P.z.count = pre.P.z.count + 1)
     \cup C("C19.ValuesAtThatMoment", post.P.z.ser = m.ser /\ post.P.z.last = vals)
     \cup C("C19.TimeSeriesAligned", post.P.z.tser = m.tser)
@@ -45,6 +45,17 @@ FinishClauses(pre, ev, post) ==
     \cup C("C19.StoredValuesNeverChange", (~should => Same(pre.Q.z, post.Q.z)) /\ Same(pre.P.z, post.P.z))
     \cup C("D.FinishFn", [post EXCEPT !.P.next = pre.P.next] = Finish([pre EXCEPT !.now = post.now], vals))
 
+(* sense() called by hand on the periodic sensor between runs *)
+MSenseClauses(pre, ev, post) ==
+    LET vals == PVals(pre)
+        m == Measure(pre.P.z, vals, post.now, FALSE) IN
+    C("C19.PeriodicOneMeasurement", post.P.z.count = pre.P.z.count + 1)
+    \cup C("C19.ValuesAtThatMoment", post.P.z.ser = m.ser /\ post.P.z.last = vals)
+    \cup C("C19.TimeSeriesAligned", post.P.z.tser = pre.P.z.tser)
+    \cup C("C19.CallbacksOnceInOrder", ev.pcalls = Calls(pre.P.z.cbs, post.now, vals) /\ ev.qcalls = <<>>)
+    \cup C("C19.OtherSensorUntouched", Same(pre.Q.z, post.Q.z))
+    \cup C("D.MSenseFn", post = ManualSense(pre))
+
 QuietClauses(pre, ev, post) ==
     C("C19.StoredValuesNeverChange", Same(pre.P.z, post.P.z) /\ Same(pre.Q.z, post.Q.z))
     \cup C("C19.NoCallbackWithoutMeasurement", ev.pcalls = <<>> /\ ev.qcalls = <<>>)
@@ -54,6 +65,7 @@ OpClauses(pre, ev, post, grid) ==
       [] ev.op = "step" /\ ev.kind = "finish" -> FinishClauses(pre, ev, post)
       [] ev.op = "step"                       -> QuietClauses(pre, ev, post)
       [] ev.op = "start" -> QuietClauses(pre, ev, post) \cup C("D.StartFn", grid => post = Start(pre))
+      [] ev.op = "msense" -> MSenseClauses(pre, ev, post)
       [] ev.op = "bump"  -> QuietClauses(pre, ev, post) \cup C("D.BumpFn", post = Bump(pre))
       [] ev.op = "addcb" -> QuietClauses(pre, ev, post) \cup C("D.AddCbFn", post = AddCb(pre, ev.s, ev.id))
       [] ev.op = "cms"   -> QuietClauses(pre, ev, post)
@@ -65,6 +77,9 @@ Failed(i) ==
     ELSE LET pre == ToW(Log[i - 1].st) post == ToW(Log[i].st) ev == Log[i].ev IN
          OpClauses(pre, ev, post, Log[i].st.grid)
          \cup C("C19.Bounded", Bounded(post.P.z, TRUE) /\ Bounded(post.Q.z, FALSE))
+         \cup C("C19.TimeSeriesKeepsMostRecent",
+                Log[i].st.grid => \A j \in DOMAIN post.P.z.tser :
+                                     post.P.z.tser[j] = (post.P.z.tcount - Len(post.P.z.tser) + j) * post.P.iv)
          \cup C("D.CallbackBookkeeping", Log[i].st.P.ncb = Len(post.P.z.cbs) /\ Log[i].st.Q.ncb = Len(post.Q.z.cbs))
 
 Report(i) == \A c \in Failed(i) : PrintT(<<"FAIL", Log[i].tid, Log[i].k, c>>)
